@@ -25,3 +25,43 @@ def cauchy_step(g, hess_prod, xl, xu, delta):
     s = t * d
     s = np.clip(s, xl, xu)
     return s, nd
+
+
+def path_end_linear(g, xl, xu, delta):
+    """End point of the projected-gradient PATH  s(t) = clip(-t*g, xl, xu),
+    t >= 0, stopped on the trust-region boundary or when no component moves
+    any more.  For a LINEAR model (H = 0) the model decreases monotonically
+    along this path, so its end point is the (generalised) Cauchy point."""
+    g = np.asarray(g, dtype=float)
+    xl = np.minimum(np.asarray(xl, dtype=float), 0.0)
+    xu = np.maximum(np.asarray(xu, dtype=float), 0.0)
+    d = -g
+    n = g.size
+    tb = np.full(n, np.inf)
+    with np.errstate(divide="ignore", invalid="ignore", over="ignore"):
+        for i in range(n):
+            if d[i] > 0.0:
+                tb[i] = xu[i] / d[i]
+            elif d[i] < 0.0:
+                tb[i] = xl[i] / d[i]
+    moving = d != 0.0
+    t_prev = 0.0
+    s = np.zeros(n)
+    for t_next in sorted(set(tb[moving].tolist()) | {np.inf}):
+        mv = moving & (tb > t_prev)
+        if not np.any(mv):
+            break
+        fixed_sq = float(np.sum(s[~mv] ** 2))
+        dm_sq = float(np.sum(d[mv] ** 2))
+        rem = delta * delta - fixed_sq
+        if rem <= 0.0:
+            break
+        t_star = float(np.sqrt(rem / dm_sq))
+        t_end = min(t_star, t_next)
+        if not np.isfinite(t_end):
+            break
+        s = np.where(mv, np.clip(t_end * d, xl, xu), s)
+        if t_star <= t_next:
+            break
+        t_prev = t_next
+    return s
